@@ -1,19 +1,437 @@
-// Package c17: STUB — property C17 is not built yet.
+// Package c17: the HAR log (har.Logger) over arbitrary histories of RecordRequest,
+// RecordResponse, Export, ExportAndReset and Reset — sequential (step-by-step and exhaustive
+// `seq` words, both compared with the Lean model) and concurrent (oracle only: linearisability
+// against the property's own reading of the log, see conc.go).
 package c17
 
-import "verif/harness/internal/core"
+import (
+	"fmt"
+	"net/http"
+	"strconv"
+	"strings"
+
+	"github.com/google/martian/v3/har"
+
+	"verif/harness/internal/core"
+)
 
 type P struct{}
 
 func init() { core.Register(P{}) }
 
-func (P) ID() string   { return "C17" }
-func (P) Rule() string { return "stub" }
-func (P) Gen(r *core.Rand, tier string, emit func([]string)) {}
-func (P) NewExec() core.Exec                                   { return ex{} }
-func (P) Nontrivial(ops []string, impl []string) bool         { return false }
+func (P) ID() string { return "C17" }
+func (P) Rule() string {
+	return "case = (a) one history of 5-400 ops (req/res over IDs a-e, export, export-and-reset, reset; per-case op weights) run step by step " +
+		"on one har.Logger, or (b) a block of `seq` words: EVERY word over the 9-letter alphabet {req a,b,c; res a,b,c; export; export-and-reset; reset} " +
+		"up to length 5 (quick) / 7 (thorough), each run on a fresh Logger, or (c) a concurrent run (8 goroutines) checked for linearisability; " +
+		"distinct by hash of the op list; non-trivial when some export-and-reset returned at least one completed entry while keeping at least one pending entry"
+}
 
-type ex struct{}
+// ---- observations ----
 
-func (ex) Do(op string) core.Result { return core.Result{Impl: "bad-op"} }
-func (ex) Close()                   {}
+type ent struct {
+	id     string
+	rq, rs int // operation tags; rs = -1: no response attached
+}
+
+func showEnts(es []ent) string {
+	if len(es) == 0 {
+		return "log -"
+	}
+	var b strings.Builder
+	b.WriteString("log ")
+	for i, e := range es {
+		if i > 0 {
+			b.WriteByte(',')
+		}
+		b.WriteString(e.id)
+		b.WriteByte(':')
+		b.WriteString(strconv.Itoa(e.rq))
+		if e.rs >= 0 {
+			b.WriteByte('+')
+			b.WriteString(strconv.Itoa(e.rs))
+		} else {
+			b.WriteByte('-')
+		}
+	}
+	return b.String()
+}
+
+const urlPrefix = "http://h.test/"
+
+func mkReq(id string, tag int) *http.Request {
+	req, err := http.NewRequest("GET", urlPrefix+id+"/"+strconv.Itoa(tag), nil)
+	if err != nil {
+		panic(err)
+	}
+	return req
+}
+
+func mkRes(tag int) *http.Response {
+	return &http.Response{StatusCode: 1000 + tag, Proto: "HTTP/1.1", ProtoMajor: 1, ProtoMinor: 1,
+		Header: http.Header{}, Body: http.NoBody}
+}
+
+// readEntry reads what the harness put into the request URL / response status back out of an
+// exported entry. withRes=false leaves the Response field alone (concurrent Export, see conc.go).
+func readEntry(e *har.Entry, withRes bool) (ent, string) {
+	if e == nil {
+		return ent{}, "nil entry in export"
+	}
+	if e.Request == nil {
+		return ent{}, "entry " + e.ID + " without request"
+	}
+	rest := strings.TrimPrefix(e.Request.URL, urlPrefix)
+	i := strings.LastIndexByte(rest, '/')
+	if i < 0 {
+		return ent{}, "unexpected request URL " + e.Request.URL
+	}
+	tag, err := strconv.Atoi(rest[i+1:])
+	if err != nil {
+		return ent{}, "unexpected request URL " + e.Request.URL
+	}
+	if rest[:i] != e.ID {
+		return ent{}, fmt.Sprintf("entry %s carries the request recorded for id %s", e.ID, rest[:i])
+	}
+	o := ent{id: e.ID, rq: tag, rs: -1}
+	if withRes && e.Response != nil {
+		o.rs = e.Response.Status - 1000
+	}
+	return o, ""
+}
+
+func readHAR(h *har.HAR, withRes bool) ([]ent, string) {
+	if h == nil || h.Log == nil {
+		return nil, "nil HAR"
+	}
+	out := make([]ent, 0, len(h.Log.Entries))
+	for _, e := range h.Log.Entries {
+		o, bad := readEntry(e, withRes)
+		if bad != "" {
+			return nil, bad
+		}
+		out = append(out, o)
+	}
+	return out, ""
+}
+
+// ---- the property, read directly (independent of the Lean model) ----
+
+// ledger is the property's own notion of the log: the accepted requests since the last reset
+// that no export-and-reset has returned yet, in arrival order, each with the response recorded
+// for its ID while it was in the log.
+type ledger struct {
+	live     []ent
+	returned map[int]bool // request tags ever returned by an export-and-reset
+}
+
+func newLedger() *ledger { return &ledger{returned: map[int]bool{}} }
+
+func (g *ledger) find(id string) int {
+	for i := range g.live {
+		if g.live[i].id == id {
+			return i
+		}
+	}
+	return -1
+}
+
+// compare classifies the first difference between an observed export and the expected one.
+func (g *ledger) compare(kind string, got, want []ent) (string, string) {
+	wantBy := map[int]ent{}
+	for _, w := range want {
+		wantBy[w.rq] = w
+	}
+	liveBy := map[int]ent{}
+	for _, w := range g.live {
+		liveBy[w.rq] = w
+	}
+	seen := map[int]bool{}
+	for _, o := range got {
+		if seen[o.rq] {
+			return kind + ":entry-listed-twice", fmt.Sprintf("entry %s (request %d) listed twice in one %s", o.id, o.rq, kind)
+		}
+		seen[o.rq] = true
+		if g.returned[o.rq] {
+			return kind + ":returned-twice", fmt.Sprintf("entry %s (request %d) was already returned by an earlier export-and-reset", o.id, o.rq)
+		}
+		l, isLive := liveBy[o.rq]
+		if !isLive {
+			return kind + ":stale-entry", fmt.Sprintf("entry %s (request %d) is not in the log (never accepted, or reset)", o.id, o.rq)
+		}
+		if l.rs != o.rs {
+			if o.rs < 0 {
+				return kind + ":response-lost", fmt.Sprintf("entry %s (request %d): response %d is missing", o.id, o.rq, l.rs)
+			}
+			return kind + ":response-misattached", fmt.Sprintf("entry %s (request %d) carries response %d, want %d", o.id, o.rq, o.rs, l.rs)
+		}
+		if _, ok := wantBy[o.rq]; !ok {
+			return kind + ":pending-returned", fmt.Sprintf("pending entry %s (request %d) returned by export-and-reset", o.id, o.rq)
+		}
+	}
+	for _, w := range want {
+		if !seen[w.rq] {
+			return kind + ":entry-missing", fmt.Sprintf("entry %s (request %d) is missing from the %s", w.id, w.rq, kind)
+		}
+	}
+	for i := range want {
+		if got[i].rq != want[i].rq {
+			return kind + ":order", fmt.Sprintf("position %d holds request %d, arrival order wants %d", i, got[i].rq, want[i].rq)
+		}
+	}
+	return "", ""
+}
+
+// sess = one Logger + the ledger + the op clock.
+type sess struct {
+	l   *har.Logger
+	g   *ledger
+	t   int
+	nt  bool // saw a non-trivial export-and-reset
+	cnt bool // bump distribution counters
+}
+
+func newSess(cnt bool) *sess { return &sess{l: har.NewLogger(), g: newLedger(), cnt: cnt} }
+
+func (s *sess) count(k string) {
+	if s.cnt {
+		core.Count(k)
+	}
+}
+
+// apply runs one operation on the real Logger; returns the canonical observation and the
+// oracle verdict.
+func (s *sess) apply(kind, id string) (impl, fail, sig string) {
+	t := s.t
+	s.t++
+	g := s.g
+	switch kind {
+	case "req":
+		err := s.l.RecordRequest(id, mkReq(id, t))
+		present := g.find(id) >= 0
+		if err != nil {
+			impl = "err dup"
+			s.count("req:dup-rejected")
+			if !present {
+				return impl, fmt.Sprintf("request with fresh id %s rejected: %v", id, err), "req:fresh-rejected"
+			}
+			return impl, "", ""
+		}
+		impl = "ok"
+		if present {
+			return impl, fmt.Sprintf("duplicate request id %s accepted", id), "req:dup-accepted"
+		}
+		s.count("req:accepted")
+		g.live = append(g.live, ent{id, t, -1})
+	case "res":
+		err := s.l.RecordResponse(id, mkRes(t))
+		impl = "ok"
+		if err != nil {
+			return "err", fmt.Sprintf("RecordResponse(%s): %v", id, err), "res:error"
+		}
+		if i := g.find(id); i >= 0 {
+			if g.live[i].rs >= 0 {
+				s.count("res:again")
+			} else {
+				s.count("res:attached")
+			}
+			g.live[i].rs = t
+		} else {
+			s.count("res:orphan")
+		}
+	case "export":
+		got, bad := readHAR(s.l.Export(), true)
+		if bad != "" {
+			return "bad-export", bad, "export:malformed"
+		}
+		impl = showEnts(got)
+		if len(got) == 0 {
+			s.count("export:empty")
+		} else {
+			s.count("export:nonempty")
+		}
+		if sg, f := g.compare("export", got, g.live); sg != "" {
+			return impl, f, sg
+		}
+	case "xreset":
+		got, bad := readHAR(s.l.ExportAndReset(), true)
+		if bad != "" {
+			return "bad-export", bad, "xreset:malformed"
+		}
+		impl = showEnts(got)
+		var want, keep []ent
+		for _, e := range g.live {
+			if e.rs >= 0 {
+				want = append(want, e)
+			} else {
+				keep = append(keep, e)
+			}
+		}
+		switch {
+		case len(want) > 0 && len(keep) > 0:
+			s.nt = true
+			s.count("xreset:some-returned-some-kept")
+			if g.live[len(g.live)-1].rs >= 0 {
+				s.count("xreset:tail-completed")
+			}
+			if g.live[0].rs < 0 {
+				s.count("xreset:head-pending")
+			}
+		case len(want) > 0:
+			s.count("xreset:all-returned")
+		case len(keep) > 0:
+			s.count("xreset:all-kept")
+		default:
+			s.count("xreset:empty")
+		}
+		if sg, f := g.compare("xreset", got, want); sg != "" {
+			return impl, f, sg
+		}
+		for _, e := range want {
+			g.returned[e.rq] = true
+		}
+		g.live = keep
+	case "reset":
+		s.l.Reset()
+		impl = "ok"
+		if len(g.live) > 0 {
+			s.count("reset:nonempty")
+		} else {
+			s.count("reset:empty")
+		}
+		g.live = nil
+	default:
+		return "bad-op", "", ""
+	}
+	return impl, "", ""
+}
+
+// letterOp decodes the compact alphabet of `seq` (kept in step with Drv/C17.lean charOp).
+func letterOp(c byte) (kind, id string, ok bool) {
+	switch {
+	case c == 'e':
+		return "export", "", true
+	case c == 'x':
+		return "xreset", "", true
+	case c == 'r':
+		return "reset", "", true
+	case c >= 'a' && c <= 'z':
+		return "req", string(c), true
+	case c >= 'A' && c <= 'Z':
+		return "res", string(c + 32), true
+	}
+	return "", "", false
+}
+
+func runSeq(w string) core.Result {
+	s := newSess(false)
+	outs := make([]string, 0, len(w))
+	var fail, sig string
+	for i := 0; i < len(w); i++ {
+		k, id, ok := letterOp(w[i])
+		if !ok {
+			return core.Result{Impl: "bad-op"}
+		}
+		o, f, sg := s.apply(k, id)
+		outs = append(outs, o)
+		if f != "" && fail == "" {
+			fail, sig = fmt.Sprintf("history %q, op %d (%s %s): %s", w, i, k, id, f), sg
+		}
+	}
+	if s.nt {
+		core.Count("seq:nontrivial")
+	}
+	core.Count("seq:len" + strconv.Itoa(len(w)))
+	return core.Result{Impl: strings.Join(outs, "|"), Fail: fail, Sig: sig}
+}
+
+// ---- Exec ----
+
+type ex struct{ s *sess }
+
+func (P) NewExec() core.Exec { return &ex{s: newSess(true)} }
+func (e *ex) Close()         {}
+
+func (e *ex) Do(op string) core.Result {
+	f := strings.Fields(op)
+	if len(f) == 0 {
+		return core.Result{Impl: "bad-op"}
+	}
+	switch {
+	case f[0] == "seq" && len(f) == 2:
+		return runSeq(f[1])
+	case f[0] == "conc" && len(f) == 5:
+		return runConc(f[1:])
+	case f[0] == "alias" && len(f) == 1:
+		return runAlias()
+	case (f[0] == "req" || f[0] == "res") && len(f) == 2:
+		impl, fail, sig := e.s.apply(f[0], f[1])
+		return core.Result{Impl: impl, Fail: fail, Sig: sig}
+	case (f[0] == "export" || f[0] == "xreset" || f[0] == "reset") && len(f) == 1:
+		impl, fail, sig := e.s.apply(f[0], "")
+		return core.Result{Impl: impl, Fail: fail, Sig: sig}
+	}
+	return core.Result{Impl: "bad-op"}
+}
+
+func (P) Nontrivial(ops []string, impl []string) bool {
+	// an export-and-reset that returned something while something stayed: the next export /
+	// export-and-reset of the same history shows a kept entry. Recomputed from the observations.
+	nt := false
+	scan := func(kinds []string, outs []string) {
+		live := map[string]bool{}
+		for i, o := range outs {
+			if i >= len(kinds) {
+				break
+			}
+			switch kinds[i] {
+			case "req":
+				if o == "ok" {
+					live[strconv.Itoa(i)] = true
+				}
+			case "reset":
+				live = map[string]bool{}
+			case "xreset":
+				if o == "log -" || !strings.HasPrefix(o, "log ") {
+					continue
+				}
+				n := strings.Count(o, ",") + 1
+				if n < len(live) {
+					nt = true
+				}
+				for _, e := range strings.Split(o[4:], ",") {
+					if j := strings.IndexByte(e, ':'); j >= 0 {
+						k := strings.IndexAny(e[j:], "+-")
+						if k > 0 {
+							delete(live, e[j+1:j+k])
+						}
+					}
+				}
+			}
+		}
+	}
+	var kinds, outs []string
+	for i, op := range ops {
+		f := strings.Fields(op)
+		if len(f) == 0 || i >= len(impl) {
+			continue
+		}
+		if f[0] == "seq" && len(f) == 2 {
+			var ks []string
+			for j := 0; j < len(f[1]); j++ {
+				k, _, _ := letterOp(f[1][j])
+				ks = append(ks, k)
+			}
+			scan(ks, strings.Split(impl[i], "|"))
+			continue
+		}
+		if f[0] == "conc" {
+			nt = nt || strings.HasPrefix(impl[i], "conc ok")
+			continue
+		}
+		kinds = append(kinds, f[0])
+		outs = append(outs, impl[i])
+	}
+	scan(kinds, outs)
+	return nt
+}
